@@ -49,8 +49,17 @@ claim("C09", "other",
       "Trusted: clang 14 + tbfscan, origin resolver, g++/clang++ for the witness; thorough adds the Specx variant through the declaration stub.",
       "type-level witnesses + who-may-call / list-flag / container-role rules over executor summaries", "DESIGN.md §2 C09")
 
+claim("C02", "other",
+      "Three structural clauses decided for every kernel call site of the group wrapper (12), of the periodic top-tree executors (12) and every level-carrying wrapper call of the executors: "
+      "(1) role coherence - all argument slots describing one object are fed from the same group and index through the accessor of their part, position codes derive from the same child / interaction record as the cell they accompany, vectors/arrays/counts are filled in lock step, one interaction record per call; "
+      "(2) level/role - the level argument is the loop level, parent/target groups come from that level and child groups from the next (which wrapper parameter feeds which role is derived from the wrapper itself), virtual-level storage of the top trees agrees with the level argument; "
+      "(3) array-fill idiom (a[n]=e; n+=1 from 0 with reset after each call, or constant slots [0,n)) and wrapper calls dominated by n>0. "
+      "A swapped accessor/index/level or an unwritten slot breaks the behaviour for every input that reaches the site. That particles lie in their leaf's box or that a code decodes to the true offset (value-level) is not decided.",
+      "Trusted: clang 14 + tbfscan, slot resolver and the frozen operator role table (rules/coherence.py ROLES, from the shipped kernels' signatures).",
+      "slot-level role-coherence, level/role origin analysis and array-fill idiom rules over the clang AST", "DESIGN.md §2 C02")
+
 _todo = "check not built yet in this round (see DESIGN.md §7 build order)"
-for p in ["C02","C06","C08","C10","C11","C14","C15","C20"]:
+for p in ["C06","C08","C10","C11","C14","C15","C20"]:
     NA[p] = _todo
 NA["C01"] = "exactly-once is a counting statement over all particle sets, heights, dimensions and groupings; no lint/effect/type argument bounds the list-builder arithmetic. Structural prerequisites are decided under C02/C03/C08/C11/C12."
 NA["C04"] = "bound on a floating-point truncation error over all positions/heights/orders: nothing about it is visible in the shape of the code (accumulate clause is under C08, code conventions under C11)."
